@@ -307,7 +307,6 @@ func VerifH_RecvUndecodable() {
 	vrt.Cover("undecodable-end")
 }
 
-
 // slowEnc's Unmarshal parks (message held) until released.
 type slowEnc struct {
 	entered *bool
